@@ -1,0 +1,10 @@
+//go:build !verif
+
+package ocache
+
+// verifYield / verifWait mark the boundaries between critical sections for the
+// schedule-controlled verification harness (build tag `verif`). Without the tag
+// they are empty and inlined away.
+func verifYield(point, id string) {}
+
+func verifWait(point, id string, ch <-chan struct{}) {}
